@@ -363,7 +363,7 @@ def run(ctx):
         ctx.assumptions.append(f'{skipped} behaviours with deblend bookkeeping skipped: SegmentationImage has no _deblend_label_map attribute')
     # 3. code -> spec
     n = 400 if q else 4000
-    traces = core.pmap(record_trace, [ctx.seed * 1000003 + i for i in range(n)], chunksize=16)
+    traces = core.pmap(record_trace, [ctx.seed * 1000003 + i for i in range(n)], chunksize=16, on_raise='drop')
     verdicts = validate_traces(ctx, traces, 'Trace:SegmImage')
     for t in traces:
         v = verdicts[t['id']]
